@@ -22,6 +22,7 @@
                     CIDR); process 2 carries on or crashes.                         [release / re-confirm / claim] *)
 EXTENDS Gen_IPAM
 
+CONSTANT Family          \* "c22" | "c20": which script family this run executes
 VARIABLES sp, script
 dvars == <<gvars, sp, script>>
 
@@ -63,7 +64,20 @@ Scripts ==
     { Race(p1, p2, d) : p1 \in {"f_mark", "f_delblk", "f_delaff"},
                         p2 \in {"a_getaff", "a_getblk", "a_rc1", "a_rc2", "a_rc3", "a_gethdl"}, d \in BOOLEAN }
 
-DInit == GInit /\ sp = 1 /\ script \in Scripts
+(* C20 family (run with Strict = TRUE): the block changes owner between a strict-affinity auto-assign's read and its
+   write.  h1 owns the empty block; process 2 of h1 auto-assigns and is paused before `p2` (after it loaded the
+   block); process 1 of h1 releases the affinity (block and claim deleted); h2 claims the same CIDR and allocates
+   from it; process 2 resumes: its block write loses the CAS, it re-reads the block - now affine to h2 - and must
+   not take an address from it (requests fail rather than violate strict affinity).                        *)
+Stolen(p2, must, viaClaim) ==
+    <<Go("c1", Claim("h1")), Run("c1"),
+      Go("c6", Assign("h1", "hA", 1)), Until("c6", p2),
+      Go("c1", RelAff("h1", must)), Run("c1")>> \o
+    (IF viaClaim THEN <<Go("c2", Claim("h2")), Run("c2")>> ELSE << >>) \o
+    <<Go("c2", Assign("h2", "hB", 1)), Run("c2"), Run("c6")>>
+ScriptsC20 == { Stolen(p, m, v) : p \in {"a_gethdl", "a_puthdl", "a_putblk"}, m, v \in BOOLEAN }
+
+DInit == GInit /\ sp = 1 /\ script \in (IF Family = "c20" THEN ScriptsC20 ELSE Scripts)
 
 Advance == sp' = sp + 1 /\ UNCHANGED gvars
 DNext ==
